@@ -6,6 +6,7 @@ from gen import ribcommon as R
 class Prop:
     pid = 'C02'
     props_file = 'Props/C02.v'
+    ops_field = 'ops'
     required_theorems = ['cmp_code_refines_spec', 'hops_code_refines_spec', 'decision_order_total_preorder', 'dest_sorted_reachable',
                          'best_eligible_maximal', 'ranking_order_independent', 'limited_and_ecmp_are_prefixes', 'ecmp_code_refines_spec', 'rs_local_best']
     extra_targets = ['Model/Rib.vo']
